@@ -16,7 +16,6 @@ from facts import tokens, fmt, short, walk, strip_sites, op_place, const_int
 # thorough tier: release configuration only — the dev-configuration pass reports the debug_assert! contract checks of the
 # core helpers (unchecked read/write, BitRange alignment, View::try_from_*), which are reachable panic sites whose discharge is
 # the call-site contract work listed in DESIGN.md 13.7; an untriaged pass is not registered
-THOROUGH_CFGS = ["release"]
 CRATES = ["sciparse"]
 
 EXPLANATION = (
@@ -549,6 +548,7 @@ def run(F, R, tier, cfg):
     ck_narrow_rule(F, R)
     ENC.install()
     ENC.hostlen_rule(F, R)
+    ENC.ret_rs_rule(F, R)
     ACC.run(F, R, {}, "enc", 88)        # 94 sites counted on 8f07ce4 (84 in trait encoders, 10 in CommonHeader::encode_unchecked)
     entries = []
     for nm in ("try_encode", "try_encode_to_vec"):
